@@ -1061,6 +1061,7 @@ func (o *ovsdbClient) monitor(ctx context.Context, cookie MonitorCookie, reconne
 	var tableUpdates interface{}
 
 	var lastTransactionFound bool
+	var replyTransactionID string
 	switch monitor.Method {
 	case ovsdb.MonitorRPC:
 		var reply ovsdb.TableUpdates
@@ -1078,10 +1079,10 @@ func (o *ovsdbClient) monitor(ctx context.Context, cookie MonitorCookie, reconne
 		var reply ovsdb.MonitorCondSinceReply
 		err = o.rpcClient.CallWithContext(ctx, monitor.Method, args, &reply)
 		if err == nil {
-			if reply.Found {
-				monitor.LastTransactionID = reply.LastTransactionID
-				lastTransactionFound = true
-			}
+			// whether or not the server knew the id it was asked with, the
+			// id in its reply is the one of the state the updates lead to
+			lastTransactionFound = reply.Found
+			replyTransactionID = reply.LastTransactionID
 			tableUpdates = reply.Updates
 		}
 	default:
@@ -1134,7 +1135,16 @@ func (o *ovsdbClient) monitor(ctx context.Context, cookie MonitorCookie, reconne
 	}
 
 	if err != nil {
+		// the cache no longer corresponds to any transaction id: the next
+		// request has to ask for everything
+		if monitor.Method == ovsdb.ConditionalMonitorSinceRPC {
+			monitor.LastTransactionID = emptyUUID
+		}
 		return err
+	}
+	// the updates are in: from now on the cache is at the reply's id
+	if replyTransactionID != "" {
+		monitor.LastTransactionID = replyTransactionID
 	}
 
 	if reconnecting {
